@@ -1509,6 +1509,386 @@ theorem isInt_iff_floor (x : ℝ) : IsInt x ↔ x = (⌊x⌋ : ℝ) := by
 
 end Intp
 
+/-! ## L14-keyanc : the ancilla numbers occurring in a key
+
+`isanc l` : the label is an ancilla name (`'__a<n>'`), `ancidx l : ℤ` its number (the verifier's
+`ISANC : Label → Bool`, `ANCIDX : Label → Int`; counters are `Int`s, so everything here is `ℤ`-valued and the
+statements are literally the ones emitted by `Facts._anc_key/_anc_concat/_anc_tail/_anc_sq`, `Facts.unit`,
+`Facts.anc_label` and `folds.ancbelow_fold`).
+
+    lanc l   := if isanc l then ancidx l + 1 else 0
+    keyanc k := foldr max 0 (k.map lanc)        -- 0 for the empty key
+
+Only the unit-key and two-label facts (`keyanc [a] = lanc a`, `keyanc [a,b] = max (lanc a) (lanc b)`) need the
+hypothesis that ancilla numbers are not negative (`isanc l → 0 ≤ ancidx l`, in fact `-1 ≤` suffices); with
+`ancidx` the cast of an `ℕ`-valued function they are unconditional (`keyanc_singleton_nat`, `keyanc_pair_nat`). -/
+
+section L14
+variable {isanc : α → Prop} [DecidablePred isanc] {ancidx : α → ℤ}
+
+/-- `_lanc` : contribution of one label -/
+def lanc (isanc : α → Prop) [DecidablePred isanc] (ancidx : α → ℤ) (l : α) : ℤ :=
+  if isanc l then ancidx l + 1 else 0
+
+/-- `KEYANC` : 1 + the largest ancilla number among the labels of the key, 0 if there is none -/
+def keyanc (isanc : α → Prop) [DecidablePred isanc] (ancidx : α → ℤ) (k : List α) : ℤ :=
+  (k.map (lanc isanc ancidx)).foldr max 0
+
+/-- z3's `If(x >= y, x, y)` is `max x y` -/
+theorem ite_ge_eq_max (x y : ℤ) : (if x ≥ y then x else y) = max x y := by
+  rcases le_total y x with h | h
+  · rw [if_pos h, max_eq_left h]
+  · by_cases h' : x ≥ y
+    · rw [if_pos h', max_eq_left h']
+    · rw [if_neg h', max_eq_right h]
+
+theorem lanc_of_isanc {l : α} (h : isanc l) : lanc isanc ancidx l = ancidx l + 1 := if_pos h
+
+theorem lanc_of_not_isanc {l : α} (h : ¬ isanc l) : lanc isanc ancidx l = 0 := if_neg h
+
+/-- ancilla numbers `≥ -1` (in particular `≥ 0`) give a nonnegative contribution -/
+theorem lanc_nonneg {l : α} (h : isanc l → -1 ≤ ancidx l) : 0 ≤ lanc isanc ancidx l := by
+  unfold lanc
+  split_ifs with hl
+  · have := h hl; omega
+  · exact le_refl 0
+
+theorem lanc_nonneg_of_nonneg (hidx : ∀ l, isanc l → 0 ≤ ancidx l) (l : α) :
+    0 ≤ lanc isanc ancidx l :=
+  lanc_nonneg (fun hl => by have := hidx l hl; omega)
+
+/-! ### 1. small keys -/
+
+theorem keyanc_nil : keyanc isanc ancidx [] = 0 := rfl
+
+theorem keyanc_cons (a : α) (k : List α) :
+    keyanc isanc ancidx (a :: k) = max (lanc isanc ancidx a) (keyanc isanc ancidx k) := rfl
+
+theorem keyanc_nonneg (k : List α) : 0 ≤ keyanc isanc ancidx k := by
+  induction k with
+  | nil => exact le_refl 0
+  | cons a l ih => rw [keyanc_cons]; exact le_max_of_le_right ih
+
+/-- unconditional form of the unit-key fact -/
+theorem keyanc_singleton_max (a : α) :
+    keyanc isanc ancidx [a] = max (lanc isanc ancidx a) 0 := rfl
+
+/-- `Facts.unit` / `_anc_key`, `n == 1` -/
+theorem keyanc_singleton {a : α} (h : 0 ≤ lanc isanc ancidx a) :
+    keyanc isanc ancidx [a] = lanc isanc ancidx a := by
+  rw [keyanc_singleton_max, max_eq_left h]
+
+/-- `_anc_key`, `n == 2` -/
+theorem keyanc_pair {a b : α} (h : 0 ≤ lanc isanc ancidx a ∨ 0 ≤ lanc isanc ancidx b) :
+    keyanc isanc ancidx [a, b] = max (lanc isanc ancidx a) (lanc isanc ancidx b) := by
+  rw [keyanc_cons, keyanc_singleton_max, ← max_assoc]
+  apply max_eq_left
+  rcases h with h | h
+  · exact le_max_of_le_left h
+  · exact le_max_of_le_right h
+
+/-- the conjunction emitted by `_anc_key` for a key with first labels `a`, `b`
+(`k = []`, `k = [a]`, `k = [a, b]` are the cases `n == 0, 1, 2`) -/
+theorem keyanc_key_facts (hidx : ∀ l, isanc l → 0 ≤ ancidx l) (a b : α) :
+    keyanc isanc ancidx ([] : List α) = 0 ∧
+    keyanc isanc ancidx [a] = lanc isanc ancidx a ∧
+    keyanc isanc ancidx [a, b]
+      = (if lanc isanc ancidx a ≥ lanc isanc ancidx b then lanc isanc ancidx a
+         else lanc isanc ancidx b) :=
+  ⟨keyanc_nil, keyanc_singleton (lanc_nonneg_of_nonneg hidx a),
+   by rw [ite_ge_eq_max]; exact keyanc_pair (Or.inl (lanc_nonneg_of_nonneg hidx a))⟩
+
+/-! ### 2. concatenation, 3. head / tail -/
+
+/-- `_anc_concat` -/
+theorem keyanc_append (a b : List α) :
+    keyanc isanc ancidx (a ++ b) = max (keyanc isanc ancidx a) (keyanc isanc ancidx b) := by
+  induction a with
+  | nil => rw [List.nil_append, keyanc_nil, max_eq_right (keyanc_nonneg b)]
+  | cons x l ih => rw [List.cons_append, keyanc_cons, keyanc_cons, ih, max_assoc]
+
+/-- `_anc_tail` -/
+theorem keyanc_head_tail {k : List α} (h : k ≠ []) :
+    keyanc isanc ancidx k = max (lanc isanc ancidx (k.head h)) (keyanc isanc ancidx k.tail) := by
+  cases k with
+  | nil => exact absurd rfl h
+  | cons a l => rfl
+
+/-- `_anc_tail` as emitted: `Length(k) >= 1 → keyanc k = If(x >= y, x, y)` with `x = lanc k[0]`, `y = keyanc k[1:]` -/
+theorem keyanc_getElem_zero_tail {k : List α} (h : 1 ≤ k.length) :
+    keyanc isanc ancidx k
+      = (if lanc isanc ancidx (k[0]'h) ≥ keyanc isanc ancidx k.tail then lanc isanc ancidx (k[0]'h)
+         else keyanc isanc ancidx k.tail) := by
+  rw [ite_ge_eq_max]
+  cases k with
+  | nil => simp at h
+  | cons a l => rfl
+
+theorem keyanc_tail_le (k : List α) : keyanc isanc ancidx k.tail ≤ keyanc isanc ancidx k := by
+  cases k with
+  | nil => exact le_refl _
+  | cons a l => rw [List.tail_cons, keyanc_cons]; exact le_max_right _ _
+
+/-! ### characterisation : `keyanc k` is the least bound `n ≥ 0` of all contributions -/
+
+theorem keyanc_le_iff (k : List α) (n : ℤ) :
+    keyanc isanc ancidx k ≤ n ↔ 0 ≤ n ∧ ∀ l ∈ k, lanc isanc ancidx l ≤ n := by
+  induction k with
+  | nil => simp [keyanc_nil]
+  | cons a l ih =>
+    rw [keyanc_cons, max_le_iff, ih, List.forall_mem_cons]
+    tauto
+
+theorem lanc_le_keyanc {k : List α} {l : α} (h : l ∈ k) :
+    lanc isanc ancidx l ≤ keyanc isanc ancidx k :=
+  ((keyanc_le_iff k _).mp (le_refl _)).2 l h
+
+/-- the maximum is attained: a nonempty-ancilla key has a label realising `keyanc` -/
+theorem keyanc_eq_zero_or_attained (k : List α) :
+    keyanc isanc ancidx k = 0 ∨ ∃ l ∈ k, keyanc isanc ancidx k = lanc isanc ancidx l := by
+  induction k with
+  | nil => left; rfl
+  | cons a l ih =>
+    rw [keyanc_cons]
+    rcases le_total (lanc isanc ancidx a) (keyanc isanc ancidx l) with h | h
+    · rw [max_eq_right h]
+      rcases ih with h0 | ⟨b, hb, hk⟩
+      · left; exact h0
+      · right; exact ⟨b, List.mem_cons_of_mem a hb, hk⟩
+    · rw [max_eq_left h]
+      right; exact ⟨a, List.mem_cons_self, rfl⟩
+
+/-! ### 4. `keyanc` depends only on the set of members, monotonically -/
+
+theorem keyanc_mono {a b : List α} (h : ∀ l ∈ a, l ∈ b) :
+    keyanc isanc ancidx a ≤ keyanc isanc ancidx b :=
+  (keyanc_le_iff a _).mpr ⟨keyanc_nonneg b, fun l hl => lanc_le_keyanc (h l hl)⟩
+
+theorem keyanc_congr_mem {a b : List α} (h : ∀ l, l ∈ a ↔ l ∈ b) :
+    keyanc isanc ancidx a = keyanc isanc ancidx b :=
+  le_antisymm (keyanc_mono fun l hl => (h l).mp hl) (keyanc_mono fun l hl => (h l).mpr hl)
+
+theorem keyanc_perm {a b : List α} (h : a.Perm b) :
+    keyanc isanc ancidx a = keyanc isanc ancidx b :=
+  keyanc_congr_mem fun _ => h.mem_iff
+
+theorem keyanc_sublist {a b : List α} (h : a.Sublist b) :
+    keyanc isanc ancidx a ≤ keyanc isanc ancidx b :=
+  keyanc_mono fun _ hl => h.subset hl
+
+theorem keyanc_filter_le (p : α → Bool) (k : List α) :
+    keyanc isanc ancidx (k.filter p) ≤ keyanc isanc ancidx k :=
+  keyanc_sublist List.filter_sublist
+
+/-- member sets (`memset k = k.toFinset`): monotone under `⊆` -/
+theorem keyanc_memset_mono [DecidableEq α] {a b : List α} (h : a.toFinset ⊆ b.toFinset) :
+    keyanc isanc ancidx a ≤ keyanc isanc ancidx b :=
+  keyanc_mono fun _ hl => List.mem_toFinset.mp (h (List.mem_toFinset.mpr hl))
+
+/-- ... and a function of the member set -/
+theorem keyanc_memset_congr [DecidableEq α] {a b : List α} (h : a.toFinset = b.toFinset) :
+    keyanc isanc ancidx a = keyanc isanc ancidx b :=
+  le_antisymm (keyanc_memset_mono h.subset) (keyanc_memset_mono h.symm.subset)
+
+/-- `keyanc k` as a maximum over the member set -/
+theorem keyanc_eq_sup_memset [DecidableEq α] (k : List α) :
+    keyanc isanc ancidx k = k.toFinset.fold max 0 (lanc isanc ancidx) := by
+  induction k with
+  | nil => rfl
+  | cons a l ih =>
+    rw [keyanc_cons, List.toFinset_cons]
+    by_cases ha : a ∈ l.toFinset
+    · rw [Finset.insert_eq_of_mem ha, ← ih]
+      exact max_eq_right (lanc_le_keyanc (List.mem_toFinset.mp ha))
+    · rw [Finset.fold_insert ha, ih]
+
+/-- `_anc_sq`, boolean canonical key (`sorted(set(k))`): equal -/
+theorem keyanc_bsq [LinearOrder α] (k : List α) :
+    keyanc isanc ancidx (bsq k) = keyanc isanc ancidx k :=
+  keyanc_congr_mem fun _ => mem_bsq
+
+/-- `_anc_sq`, spin canonical key (members of odd multiplicity): not larger -/
+theorem keyanc_ssq_le [LinearOrder α] (k : List α) :
+    keyanc isanc ancidx (ssq k) ≤ keyanc isanc ancidx k :=
+  keyanc_mono (ssq_subset k)
+
+/-- plain sorting `tuple(sorted(k))` -/
+theorem keyanc_srt [LinearOrder α] (k : List α) :
+    keyanc isanc ancidx (srt k) = keyanc isanc ancidx k :=
+  keyanc_perm (srt_perm k)
+
+theorem keyanc_dedup [DecidableEq α] (k : List α) :
+    keyanc isanc ancidx k.dedup = keyanc isanc ancidx k :=
+  keyanc_congr_mem fun _ => List.mem_dedup
+
+/-! ### 5. membership : the meaning of `keyanc k ≤ n` -/
+
+theorem ancidx_succ_le_keyanc {k : List α} {l : α} (hl : l ∈ k) (ha : isanc l) :
+    ancidx l + 1 ≤ keyanc isanc ancidx k := by
+  rw [← lanc_of_isanc (ancidx := ancidx) ha]; exact lanc_le_keyanc hl
+
+theorem ancidx_lt_keyanc {k : List α} {l : α} (hl : l ∈ k) (ha : isanc l) :
+    ancidx l < keyanc isanc ancidx k := by
+  have := ancidx_succ_le_keyanc (ancidx := ancidx) hl ha; omega
+
+/-- `keyanc k ≤ n` : every ancilla label of the key has a number below `n` -/
+theorem ancidx_lt_of_keyanc_le {k : List α} {n : ℤ} (h : keyanc isanc ancidx k ≤ n) :
+    ∀ l ∈ k, isanc l → ancidx l < n := by
+  intro l hl ha
+  have := ancidx_succ_le_keyanc (ancidx := ancidx) hl ha; omega
+
+/-- ... and conversely, for a bound `n ≥ 0` (counters are `≥ 0`): this is the term of the fold `ancbelow@n` -/
+theorem keyanc_le_iff_ancbelow (k : List α) {n : ℤ} (hn : 0 ≤ n) :
+    keyanc isanc ancidx k ≤ n ↔ ∀ l ∈ k, isanc l → ancidx l < n := by
+  constructor
+  · exact ancidx_lt_of_keyanc_le
+  · intro h
+    refine (keyanc_le_iff k n).mpr ⟨hn, fun l hl => ?_⟩
+    unfold lanc
+    split_ifs with ha
+    · have := h l hl ha; omega
+    · exact hn
+
+theorem keyanc_eq_zero_iff (k : List α) (hidx : ∀ l, isanc l → 0 ≤ ancidx l) :
+    keyanc isanc ancidx k = 0 ↔ ∀ l ∈ k, ¬ isanc l := by
+  rw [← (keyanc_nonneg k).ge_iff_eq', keyanc_le_iff_ancbelow k (le_refl 0)]
+  constructor
+  · intro h l hl ha
+    have h1 := h l hl ha
+    have h2 := hidx l ha
+    omega
+  · intro h l hl ha; exact absurd ha (h l hl)
+
+/-! ### 6. the parametric fold `ancbelow@n` over a finite set of keys (the dict's domain) -/
+
+/-- the all-fold `ancbelow@n` of a dict with key set `s` -/
+def ancbelow (isanc : α → Prop) [DecidablePred isanc] (ancidx : α → ℤ) (s : Finset (List α))
+    (n : ℤ) : Prop :=
+  ∀ k ∈ s, keyanc isanc ancidx k ≤ n
+
+/-- monotone in the bound: `below n ∧ n ≤ m → below m` (both implications added in `folds.fold`) -/
+theorem ancbelow_mono {s : Finset (List α)} {n m : ℤ}
+    (h : ancbelow isanc ancidx s n ∧ n ≤ m) : ancbelow isanc ancidx s m :=
+  fun k hk => le_trans (h.1 k hk) h.2
+
+/-- the same, unfolded -/
+theorem keyanc_fold_mono {s : Finset (List α)} {n m : ℤ}
+    (h : (∀ k ∈ s, keyanc isanc ancidx k ≤ n) ∧ n ≤ m) : ∀ k ∈ s, keyanc isanc ancidx k ≤ m :=
+  ancbelow_mono h
+
+/-- antitone in the key set (pop / a sub-dict) -/
+theorem ancbelow_subset {s t : Finset (List α)} {n : ℤ} (hst : s ⊆ t)
+    (h : ancbelow isanc ancidx t n) : ancbelow isanc ancidx s n :=
+  fun k hk => h k (hst hk)
+
+/-- storing a key: the all-fold step (an instance of `dict_all_set` with `P k _ := keyanc k ≤ n`) -/
+theorem ancbelow_insert [DecidableEq α] {s : Finset (List α)} {n : ℤ} (k : List α) :
+    ancbelow isanc ancidx (insert k s) n ↔ keyanc isanc ancidx k ≤ n ∧ ancbelow isanc ancidx s n := by
+  unfold ancbelow
+  rw [Finset.forall_mem_insert]
+
+theorem ancbelow_empty (n : ℤ) : ancbelow isanc ancidx (∅ : Finset (List α)) n :=
+  fun _ hk => absurd hk (Finset.notMem_empty _)
+
+/-- a nonempty dict below `n` forces `n ≥ 0` -/
+theorem ancbelow_nonneg {s : Finset (List α)} {n : ℤ} {k : List α} (hk : k ∈ s)
+    (h : ancbelow isanc ancidx s n) : 0 ≤ n :=
+  le_trans (keyanc_nonneg k) (h k hk)
+
+/-- meaning of the fold: no key of the dict mentions an ancilla label with number `≥ n` -/
+theorem ancbelow_iff {s : Finset (List α)} {n : ℤ} (hn : 0 ≤ n) :
+    ancbelow isanc ancidx s n ↔ ∀ k ∈ s, ∀ l ∈ k, isanc l → ancidx l < n := by
+  unfold ancbelow
+  exact forall₂_congr fun k _ => keyanc_le_iff_ancbelow k hn
+
+/-! ### 7. the naming `anc n = '__a%d' % n` : `isanc (anc n)`, `ancidx (anc n) = n` (`Facts.anc_label`) -/
+
+/-- `anc_label` : distinct numbers give distinct labels (a consequence of `ancidx ∘ anc = id`) -/
+theorem anc_injective {anc : ℕ → α} (hidx : ∀ n, ancidx (anc n) = (n : ℤ)) :
+    Function.Injective anc := by
+  intro m n h
+  have := congrArg ancidx h
+  rw [hidx, hidx] at this
+  exact_mod_cast this
+
+/-- the fact `(anc m == anc n) == (m == n)` of `anc_label` -/
+theorem anc_eq_iff {anc : ℕ → α} (hidx : ∀ n, ancidx (anc n) = (n : ℤ)) (m n : ℕ) :
+    anc m = anc n ↔ m = n :=
+  (anc_injective hidx).eq_iff
+
+theorem lanc_anc {anc : ℕ → α} (hanc : ∀ n, isanc (anc n)) (hidx : ∀ n, ancidx (anc n) = (n : ℤ))
+    (n : ℕ) : lanc isanc ancidx (anc n) = (n : ℤ) + 1 := by
+  rw [lanc_of_isanc (hanc n), hidx]
+
+theorem keyanc_unit_anc {anc : ℕ → α} (hanc : ∀ n, isanc (anc n))
+    (hidx : ∀ n, ancidx (anc n) = (n : ℤ)) (n : ℕ) :
+    keyanc isanc ancidx [anc n] = (n : ℤ) + 1 := by
+  rw [keyanc_singleton, lanc_anc hanc hidx]
+  rw [lanc_anc hanc hidx]; omega
+
+/-- freshness: a key bounded by `n` does not contain the ancilla drawn from any counter `m ≥ n` -/
+theorem anc_notMem_of_keyanc_le {anc : ℕ → α} (hanc : ∀ n, isanc (anc n))
+    (hidx : ∀ n, ancidx (anc n) = (n : ℤ)) {k : List α} {n : ℤ}
+    (h : keyanc isanc ancidx k ≤ n) {m : ℕ} (hm : n ≤ (m : ℤ)) : anc m ∉ k := by
+  intro hmem
+  have h1 := ancidx_lt_of_keyanc_le h (anc m) hmem (hanc m)
+  rw [hidx] at h1
+  omega
+
+/-- ... with a natural-number bound -/
+theorem anc_notMem_of_keyanc_le_nat {anc : ℕ → α} (hanc : ∀ n, isanc (anc n))
+    (hidx : ∀ n, ancidx (anc n) = (n : ℤ)) {k : List α} {n m : ℕ}
+    (h : keyanc isanc ancidx k ≤ (n : ℤ)) (hm : n ≤ m) : anc m ∉ k :=
+  anc_notMem_of_keyanc_le hanc hidx h (by exact_mod_cast hm)
+
+/-- ... for every stored key of a dict below `n` -/
+theorem anc_fresh_of_ancbelow {anc : ℕ → α} (hanc : ∀ n, isanc (anc n))
+    (hidx : ∀ n, ancidx (anc n) = (n : ℤ)) {s : Finset (List α)} {n : ℤ}
+    (h : ancbelow isanc ancidx s n) {m : ℕ} (hm : n ≤ (m : ℤ)) : ∀ k ∈ s, anc m ∉ k :=
+  fun k hk => anc_notMem_of_keyanc_le hanc hidx (h k hk) hm
+
+/-- The verifier's `anc : Int → Label` (`anc_label` is applied to `Int` terms).  The two facts are only
+needed at the numbers actually used, and `m ≥ n ≥ keyanc k ≥ 0` holds automatically. -/
+theorem ancZ_notMem_of_keyanc_le {anc : ℤ → α} {k : List α} {n m : ℤ}
+    (h : keyanc isanc ancidx k ≤ n) (hm : n ≤ m)
+    (hanc : isanc (anc m)) (hidx : ancidx (anc m) = m) : anc m ∉ k := by
+  intro hmem
+  have h1 := ancidx_lt_of_keyanc_le h (anc m) hmem hanc
+  rw [hidx] at h1
+  omega
+
+theorem ancZ_eq_iff {anc : ℤ → α} {m n : ℤ} (hm : ancidx (anc m) = m) (hn : ancidx (anc n) = n) :
+    anc m = anc n ↔ m = n := by
+  constructor
+  · intro h
+    have := congrArg ancidx h
+    rwa [hm, hn] at this
+  · intro h; rw [h]
+
+/-- drawing the ancilla `anc m` from the counter `m ≥ n` and advancing the counter keeps the bound:
+`keyanc k ≤ n ≤ m → keyanc (k ++ [anc m]) ≤ m + 1` -/
+theorem keyanc_append_anc_le {anc : ℕ → α} (hanc : ∀ n, isanc (anc n))
+    (hidx : ∀ n, ancidx (anc n) = (n : ℤ)) {k : List α} {n : ℤ} {m : ℕ}
+    (h : keyanc isanc ancidx k ≤ n) (hm : n ≤ (m : ℤ)) :
+    keyanc isanc ancidx (k ++ [anc m]) ≤ (m : ℤ) + 1 := by
+  rw [keyanc_append, keyanc_unit_anc hanc hidx, max_le_iff]
+  constructor <;> omega
+
+/-! ### the intended model : ancilla numbers are natural numbers -/
+
+/-- with `ancidx = (↑) ∘ idx`, `idx : α → ℕ`, the unit-key fact of `Facts.unit` is unconditional -/
+theorem keyanc_singleton_nat (idx : α → ℕ) (a : α) :
+    keyanc isanc (fun l => (idx l : ℤ)) [a] = lanc isanc (fun l => (idx l : ℤ)) a :=
+  keyanc_singleton (lanc_nonneg fun _ => by omega)
+
+/-- ... and so is the two-label fact of `_anc_key` -/
+theorem keyanc_pair_nat (idx : α → ℕ) (a b : α) :
+    keyanc isanc (fun l => (idx l : ℤ)) [a, b]
+      = max (lanc isanc (fun l => (idx l : ℤ)) a) (lanc isanc (fun l => (idx l : ℤ)) b) :=
+  keyanc_pair (Or.inl (lanc_nonneg fun _ => by omega))
+
+end L14
+
 /-! ## Sanity instantiations at `α := ℕ`, `R := ℝ` / `ℚ` -/
 
 section Inst
@@ -1563,6 +1943,21 @@ example (x : ℕ → ℝ) (hx : ∀ i, x i = 0) (s : Finset (List ℕ)) (f : Lis
 example (a b : ℝ) (c : Prop) [Decidable c] (ha : IsInt a) (hb : IsInt b) :
     IsInt (if c then a * b - 2 else -a + 1) :=
   isInt_ite c (isInt_sub (isInt_mul ha hb) isInt_two) (isInt_add (isInt_neg ha) isInt_one)
+
+/-! L14-keyanc: a model of the hypotheses exists (labels `ℕ ⊕ ℕ`: `inl` user labels, `inr n` the ancilla `n`),
+so the fact set `isanc (anc n) ∧ ancidx (anc n) = n` is consistent and the freshness theorem is not vacuous. -/
+
+example (k : List (ℕ ⊕ ℕ)) (n : ℤ) (m : ℕ)
+    (h : keyanc (fun l : ℕ ⊕ ℕ => l.isRight = true) (Sum.elim (fun _ => 0) (fun j => (j : ℤ))) k ≤ n)
+    (hm : n ≤ (m : ℤ)) : Sum.inr m ∉ k :=
+  anc_notMem_of_keyanc_le (anc := Sum.inr) (fun _ => rfl) (fun _ => rfl) h hm
+
+example : keyanc (fun l : ℕ ⊕ ℕ => l.isRight = true) (Sum.elim (fun _ => 0) (fun j => (j : ℤ)))
+    [Sum.inl 7, Sum.inr 4, Sum.inr 1, Sum.inl 9] = 5 := by decide
+
+example (a b : List ℕ) (isanc : ℕ → Prop) [DecidablePred isanc] (ancidx : ℕ → ℤ) :
+    keyanc isanc ancidx (bsq (a ++ b)) = max (keyanc isanc ancidx a) (keyanc isanc ancidx b) := by
+  rw [keyanc_bsq, keyanc_append]
 
 end Inst
 
@@ -1780,3 +2175,58 @@ end Qvc
 #print axioms Qvc.isInt_ratCast_iff
 #print axioms Qvc.isInt_of_bool
 #print axioms Qvc.isInt_iff_floor
+#print axioms Qvc.ite_ge_eq_max
+#print axioms Qvc.lanc_of_isanc
+#print axioms Qvc.lanc_of_not_isanc
+#print axioms Qvc.lanc_nonneg
+#print axioms Qvc.lanc_nonneg_of_nonneg
+#print axioms Qvc.keyanc_nil
+#print axioms Qvc.keyanc_cons
+#print axioms Qvc.keyanc_nonneg
+#print axioms Qvc.keyanc_singleton_max
+#print axioms Qvc.keyanc_singleton
+#print axioms Qvc.keyanc_pair
+#print axioms Qvc.keyanc_key_facts
+#print axioms Qvc.keyanc_append
+#print axioms Qvc.keyanc_head_tail
+#print axioms Qvc.keyanc_getElem_zero_tail
+#print axioms Qvc.keyanc_tail_le
+#print axioms Qvc.keyanc_le_iff
+#print axioms Qvc.lanc_le_keyanc
+#print axioms Qvc.keyanc_eq_zero_or_attained
+#print axioms Qvc.keyanc_mono
+#print axioms Qvc.keyanc_congr_mem
+#print axioms Qvc.keyanc_perm
+#print axioms Qvc.keyanc_sublist
+#print axioms Qvc.keyanc_filter_le
+#print axioms Qvc.keyanc_memset_mono
+#print axioms Qvc.keyanc_memset_congr
+#print axioms Qvc.keyanc_eq_sup_memset
+#print axioms Qvc.keyanc_bsq
+#print axioms Qvc.keyanc_ssq_le
+#print axioms Qvc.keyanc_srt
+#print axioms Qvc.keyanc_dedup
+#print axioms Qvc.ancidx_succ_le_keyanc
+#print axioms Qvc.ancidx_lt_keyanc
+#print axioms Qvc.ancidx_lt_of_keyanc_le
+#print axioms Qvc.keyanc_le_iff_ancbelow
+#print axioms Qvc.keyanc_eq_zero_iff
+#print axioms Qvc.ancbelow_mono
+#print axioms Qvc.keyanc_fold_mono
+#print axioms Qvc.ancbelow_subset
+#print axioms Qvc.ancbelow_insert
+#print axioms Qvc.ancbelow_empty
+#print axioms Qvc.ancbelow_nonneg
+#print axioms Qvc.ancbelow_iff
+#print axioms Qvc.anc_injective
+#print axioms Qvc.anc_eq_iff
+#print axioms Qvc.lanc_anc
+#print axioms Qvc.keyanc_unit_anc
+#print axioms Qvc.anc_notMem_of_keyanc_le
+#print axioms Qvc.anc_notMem_of_keyanc_le_nat
+#print axioms Qvc.anc_fresh_of_ancbelow
+#print axioms Qvc.ancZ_notMem_of_keyanc_le
+#print axioms Qvc.ancZ_eq_iff
+#print axioms Qvc.keyanc_append_anc_le
+#print axioms Qvc.keyanc_singleton_nat
+#print axioms Qvc.keyanc_pair_nat
